@@ -6,7 +6,7 @@ W=/tmp/mut/confirm
 if [ ! -d $W ]; then git -C /repo worktree add -q --detach $W HEAD && cp -a /repo/target $W/target; fi
 cd $W && git checkout -q --detach $(git -C /repo rev-parse HEAD) && git checkout -- . && git clean -fdq -e target
 export TMPDIR=$W/target/tmpd; rm -rf $TMPDIR; mkdir -p $TMPDIR
-T=$(grep -o "^+ *\(async \)\?fn [a-z_0-9]*" "$D/demo.diff" | tail -1 | awk '{print $NF}')
+T="$3"; [ -z "$T" ] && T=$(grep -o "^+ *\(async \)\?fn [a-z_0-9]*" "$D/demo.diff" | tail -1 | awk '{print $NF}')
 echo "=== $D demo=$T" >> "$OUT"
 git apply "$D/demo.diff" || { echo "demo does not apply" >> "$OUT"; exit 1; }
 r1=$(cargo test --offline "$T" 2>&1 | grep -E "^test result" | head -1)
